@@ -3,11 +3,20 @@ C19  Locks live exactly from prewrite until commit or rollback; CheckTxnStatus r
 expired primary lock; a commit below the lock's minimum commit timestamp is refused.
 
 Only property theorems, their non-vacuity examples and `…_fails_asis` theorems live here.
-Stated at the abstract versioned store (lock CF = one lock per key).  The composition with
-memtable rotation / flush / compaction — "the lock CF reuses one storage version per key" — is
-the versioned-read property C02's subject and is not repeated here.
+The lifetime theorems are stated at the abstract versioned store (lock CF = one lock per key).
+"Regardless of flushes and compactions": the lock and the tombstone that removes it live under one
+internal key `(CFLock, key, MaxUint64)`; where the two records sit is modelled in `Perc/Phys.lean`
+on top of the LSM model, `C19_lock_survives_maintenance` lifts C02's theorem to `GetLock`,
+and the two `…_fails_asis_lsm_…` theorems show what the LSM read path of the tree as found does
+to a removed lock (the C19 face of the C01/C02 findings `lsm-l0-oldest-wins`,
+`lsm-ingest-minkey-order`).
+
+The configuration is `Phys.C19Cfg` (Percolator decisions + LSM decisions); the theorems about the
+Percolator layer alone take its `perc` part (coercion).
 -/
 import NoKVModel.Perc.Outcome
+import NoKVModel.Perc.Phys
+import NoKVModel.Props.C02
 
 namespace NoKV.Props.C19
 open NoKV NoKV.Perc
@@ -168,7 +177,97 @@ theorem C19_fails_asis_ttl_wrap (c : PercCfg) (hc : c.TtlAsis) :
   refine ⟨(C19_ttl_asis c hc _ 61).mpr ?_, by decide⟩
   decide
 
+/-! ### regardless of flushes and compactions -/
+
+open NoKV.Perc.Phys in
+/-- **GetLock answers the most recent lock-CF write of the key** — the lock last set or the
+tombstone of its removal — wherever memtable rotations, flushes, L0→ingest moves, ingest merges
+(`keep`), ingest drains and reopens have put the two records, for every good LSM configuration.
+Hence a lock removed by commit / rollback (its tombstone is the most recent write) does not
+reappear, whatever maintenance happens in between.
+
+This is `C02_getv_refines` (all modelled LSM operations) read at the lock column's internal key
+`(CFLock, key, MaxUint64)`.  Of `Cfg.AllGood`, the version-0 decision (`zeroVersionFound`) cannot
+matter here — the lock column's only version is `MaxUint64` — and neither can `crossPick` (one
+version per key); they are hypotheses only because the lifted theorem has them. -/
+theorem C19_lock_survives_maintenance (c : C19Cfg) (hc : c.lsm.AllGood) (ops : List Lsm.Op)
+    (hops : ∀ op ∈ ops, op.wf) (k : Bytes) :
+    lockOf c.lsm (Lsm.run c.lsm {} ops) k =
+      (match Lsm.pick ⟨cfLock, k, Lsm.maxVersion⟩ (Lsm.logOf [] ops) with
+       | some e => if e.del then none else decLock e.val
+       | none => none) := by
+  unfold lockOf
+  rw [NoKV.Props.C02.C02_getv_refines c.lsm hc ops hops]
+  cases Lsm.pick ⟨cfLock, k, Lsm.maxVersion⟩ (Lsm.logOf [] ops) <;> rfl
+
+/-- the lock transaction 40 sets on `c` -/
+def lock40 : Lock := ⟨kc, 40, 100, .put, 0⟩
+
+open NoKV.Perc.Phys in
+/-- the lock of transaction 40 is flushed to one L0 table, the tombstone of its removal to a second -/
+def wL0 : List Lsm.Op :=
+  [.put (lockEntry kc lock40), .rotate, .flush, .put (lockTomb kc), .rotate, .flush]
+
+open NoKV.Perc.Phys in
+/-- `searchL0SST` visits the L0 tables oldest first and `table.Search` keeps the first hit on equal
+versions: once the lock and its tombstone sit in two L0 tables, `GetLock` answers the lock again
+(finding `lsm-l0-oldest-wins`, here for the lock column). -/
+theorem C19_fails_asis_lsm_l0_oldest_wins (c : C19Cfg)
+    (hc : c.lsm.l0SearchDir = .oldestFirst ∧ c.lsm.tieRule = .lt) :
+    lockOf c.lsm (Lsm.run c.lsm {} wL0) kc = some lock40 ∧
+    Lsm.pick ⟨cfLock, kc, Lsm.maxVersion⟩ (Lsm.logOf [] wL0) = some (lockTomb kc) := by
+  obtain ⟨pc, lc⟩ := c
+  dsimp only at hc ⊢
+  clear pc
+  rcases lc with ⟨d, t, cp, lo, io, im, mk, to, ob, pk, zf⟩
+  simp only at hc
+  obtain ⟨rfl, rfl⟩ := hc
+  cases cp <;> cases lo <;> cases io <;> cases im <;> cases mk <;> cases to <;> cases ob <;>
+    cases pk <;> cases zf <;> decide
+
+open NoKV.Perc.Phys in
+/-- the lock of 40 (with its default-CF entry) goes to the ingest buffer; the tombstone follows in
+a later table that also holds a smaller key (`a`), i.e. has a smaller min key -/
+def wIngest : List Lsm.Op :=
+  [.put (defEntry kc 40 (some [4])), .put (lockEntry kc lock40), .rotate, .flush, .l0move,
+   .put (wEntry kc ⟨45, 40, .put⟩), .put (lockTomb kc),
+   .put (defEntry [0x61] 50 (some [5])), .put (lockEntry [0x61] ⟨[0x61], 50, 100, .put, 0⟩),
+   .rotate, .flush, .l0move]
+
+open NoKV.Perc.Phys in
+/-- The ingest buffer is searched in descending min-key order, not newest first: the older table
+(greater min key) is met first and wins the tie — the removed lock is back (finding
+`lsm-ingest-minkey-order`, here for the lock column). -/
+theorem C19_fails_asis_lsm_ingest_minkey (c : C19Cfg)
+    (hc : c.lsm.ingestOrder = .minKeyDesc ∧ c.lsm.tieRule = .lt) :
+    lockOf c.lsm (Lsm.run c.lsm {} wIngest) kc = some lock40 ∧
+    Lsm.pick ⟨cfLock, kc, Lsm.maxVersion⟩ (Lsm.logOf [] wIngest) = some (lockTomb kc) := by
+  obtain ⟨pc, lc⟩ := c
+  dsimp only at hc ⊢
+  clear pc
+  rcases lc with ⟨d, t, cp, lo, io, im, mk, to, ob, pk, zf⟩
+  simp only at hc
+  obtain ⟨rfl, rfl⟩ := hc
+  cases d <;> cases cp <;> cases lo <;> cases im <;> cases mk <;> cases to <;> cases ob <;>
+    cases pk <;> cases zf <;> decide
+
 /-! ### non-vacuity -/
+
+open NoKV.Perc.Phys in
+/-- the same two placements produced by the request handlers themselves (prewrite, rollback /
+commit of transaction 40 with the maintenance steps in between): under the LSM decisions of the
+tree as found the lock is back, under the good ones it stays removed -/
+example :
+    let asis : Lsm.Cfg := { Lsm.Cfg.good with l0SearchDir := .oldestFirst, ingestOrder := .minKeyDesc, crossPick := .firstHit, zeroVersionFound := false }
+    let pw40 : POp := .req (.prewrite ⟨40, kc, 100, 0⟩ [⟨.put, kc, [4]⟩])
+    let h1 : List POp := [pw40, .rotate, .flush, .req (.rollback 40 [kc]), .rotate, .flush]
+    let h2 : List POp := [pw40, .rotate, .flush, .l0move, .req (.commit 40 45 [kc]),
+      .req (.prewrite ⟨50, [0x61], 100, 0⟩ [⟨.put, [0x61], [5]⟩]), .rotate, .flush, .l0move]
+    (lockOf asis (prun PercCfg.good asis {} h1) kc).map (·.ts) = some 40 ∧
+    (lockOf asis (prun PercCfg.good asis {} h2) kc).map (·.ts) = some 40 ∧
+    lockOf Lsm.Cfg.good (prun PercCfg.good Lsm.Cfg.good {} h1) kc = none ∧
+    lockOf Lsm.Cfg.good (prun PercCfg.good Lsm.Cfg.good {} h2) kc = none := by
+  decide
 
 example : PercCfg.good.OwnerGood ∧ PercCfg.good.TtlGood ∧ PercCfg.good.MinCommitGood := by decide
 example : PercCfg.asis.TtlAsis := by decide
